@@ -477,7 +477,7 @@ PROPS.update({
         theorems=[(CMP + 'C10', ['DX.debug_trace_is_std', 'DX.transparent_delegates', 'DX.two_transparent_rejected',
                                  'DX.debug_struct_trace'])],
         l1=[('basic', 4000, 150000), ('all', 3000, 100000), ('ext', 24000, 640000)],
-        extra=extras(extra_cmp_l2('fwdRun', None, 600, 12000), extra_cmp_l2('debugRun', None, 480, 9600), extra_programs(l2gen.gen_c10_program, 600, 12000, what='Debug output differs from the standard derive on the type with its ignored fields deleted / from the transparent field alone'), extra_twins(360, 6000)),
+        extra=extras(extra_cmp_l2('debugRun', None, 480, 9600), extra_programs(l2gen.gen_c10_program, 600, 12000, what='Debug output differs from the standard derive on the type with its ignored fields deleted / from the transparent field alone'), extra_verdicts(l2gen.gen_c10_reject_case, 32, 400), extra_twins(360, 6000)),
         labels=r':Debug$',
     ),
     'C11': dict(
@@ -569,7 +569,7 @@ PROPS.update({
         explanation="theorems: accepted exactly for single-field structs; the returned reference is to the place self.<field> and Target is the field's declared type (arity_rejected, deref_is_field_place). L1; L2: address and type identity, write-through, rejections, unsized targets.",
         theorems=[(CMP + 'C18', ['DX.arity_rejected', 'DX.deref_is_field_place', 'DX.deref_sig_free_of_field_type', 'DX.deref_returns_trait_target'])],
         l1=[('ops', 4000, 150000), ('ext', 24000, 640000)],
-        extra=extras(extra_programs(l2gen.gen_c18_program, 240, 4800, what='Deref / DerefMut do not target the single field itself'), extra_verdicts(l2gen.gen_c18_reject_case, 96, 1000)),
+        extra=extras(extra_programs(l2gen.gen_c18_program, 240, 4800, what='Deref / DerefMut do not target the single field itself'), extra_verdicts(l2gen.gen_c18_reject_case, 96, 1000), extra_verdicts(l2gen.gen_c18_sibling_case, 32, 400)),
         labels=r':Deref(Mut)?$',
     ),
     'C19': dict(
